@@ -53,7 +53,7 @@ def gen_list(rng, codes):
     """returns (kind, list)"""
     r = rng.random()
     unknown = ["XXX", "usa", "", "EU27", "SWZ", "U S"]
-    if r < 0.10:
+    if r < 0.05:
         return "empty", []
     if r < 0.40:
         n = rng.choice([1, 1, 2, 3, 5, 8, 20, 60])
@@ -64,7 +64,7 @@ def gen_list(rng, codes):
             l.append(rng.choice(l))
         return "inclusion", l
     if r < 0.70:
-        n = rng.choice([1, 1, 2, 3, 10, 40, 100, 160, 164])
+        n = rng.choice([1, 2, 3, 10, 40, 100, 130, 150, 160, 160, 163, 164])
         l = ["!" + c for c in rng.sample(codes, min(n, len(codes)))]
         if rng.random() < 0.3:
             l.insert(rng.randint(0, len(l)), "!" + rng.choice(unknown))
@@ -270,7 +270,7 @@ def run(ctx):
             ctx.broken.append(f"model does not compile against the regenerated table: {bad}")
         else:
             terms = [coq_case(c, r) for c, r in zip(cases, res)]
-            codes = ctx.coq_codes("c15", IMPORTS, terms, per_file=40 if ctx.quick else 120, defs=DEFS)
+            codes = ctx.coq_codes("c15", IMPORTS, terms, per_file=20 if ctx.quick else 100, defs=DEFS)
             nbad = 0
             for code, case, r in zip(codes, cases, res):
                 if code != 0:
